@@ -2,7 +2,8 @@
    the specification (before its namespace is known), provided the operation and the attribute builders are right. *)
 From Coq Require Import String Ascii List Bool Arith Lia.
 From KV Require Import Lib.Str Lib.ODict Model.Vpp Model.VppWriter Model.Uml Model.UmlBlob Model.UmlWriter Model.UmlSem
-                       Proofs.UmlBlobDefs Proofs.UmlBlobStruct Proofs.UmlSemDefs Proofs.UmlSemDict Proofs.UmlSemGoals.
+                       Proofs.UmlBlobDefs Proofs.UmlBlobStruct Proofs.UmlBlobText Proofs.UmlSemDefs Proofs.UmlSemDict Proofs.UmlSemDoc
+                       Proofs.UmlSemGoals.
 Import ListNotations.
 Open Scope string_scope.
 
@@ -157,11 +158,31 @@ Proof.
   repeat split; assumption.
 Qed.
 
-Lemma c_noise_step : forall g f k v, noise_key k = true -> stereo_step g f (k, v) = Some f.
+(* an entry whose key holds none of the words Class.Parse scans for is skipped *)
+Lemma c_skip_step : forall g f k v,
+  contains "child" (Uml.lower k) = false /\ contains "stereotype" (Uml.lower k) = false
+  /\ contains "abstract" (Uml.lower k) = false /\ contains "documentation_plain" (Uml.lower k) = false ->
+  stereo_step g f (k, v) = Some f.
 Proof.
-  intros g f k v H. destruct (c_noise_parts k H) as [H1 [H2 [H3 H4]]].
+  intros g f k v [H1 [H2 [H3 H4]]].
   unfold stereo_step. cbn [fst snd]. rewrite H1, H2, H3, H4. reflexivity.
 Qed.
+
+Lemma c_noise_step : forall g f k v, noise_key k = true -> stereo_step g f (k, v) = Some f.
+Proof. intros g f k v H. apply c_skip_step. exact (c_noise_parts k H). Qed.
+
+(* the keys of an inert property of a class *)
+Lemma c_inert_parts : forall l it k, inerts_ok KClass l = true -> In (SInert it) l -> In k (item_keys it) ->
+  contains "child" (Uml.lower k) = false /\ contains "stereotype" (Uml.lower k) = false
+  /\ contains "abstract" (Uml.lower k) = false /\ contains "documentation_plain" (Uml.lower k) = false.
+Proof.
+  intros l it k H Hin Hk. destruct (inert_key_free KClass l it k H Hin Hk) as [_ Hp].
+  cbn [kind_parts forallb] in Hp. c_split. repeat match goal with H : negb _ = true |- _ => apply negb_true_iff in H end.
+  repeat split; assumption.
+Qed.
+
+Lemma c_inert_notchild : forall l it k, inerts_ok KClass l = true -> In (SInert it) l -> In k (item_keys it) -> is_child_key k = false.
+Proof. intros l it k H Hin Hk. unfold is_child_key. apply (c_inert_parts l it k H Hin Hk). Qed.
 
 Lemma c_noise_notchild : forall k, noise_key k = true -> is_child_key k = false.
 Proof. intros k H. unfold is_child_key. apply (c_noise_parts k H). Qed.
@@ -178,8 +199,38 @@ Proof.
     rewrite c_unq_q. assumption.
 Qed.
 
+(* a comma-free text is untouched by the comma stripping of the reader *)
+Lemma c_remove_none : forall c s, no_char c s = true -> remove_char c s = s.
+Proof.
+  intros c s. induction s as [|b s IH]; intro H; [reflexivity|].
+  cbn [no_char] in H. apply andb_true_iff in H. destruct H as [H1 H2]. apply negb_true_iff in H1.
+  cbn [remove_char]. rewrite H1, (IH H2). reflexivity.
+Qed.
+
+Lemma c_txt_simple : forall s, txt s = true -> negb (String.eqb s "") = true ->
+  negb (String.eqb (py_strip (remove_char "," s)) "") = true.
+Proof.
+  intros s H Hne. unfold txt in H. c_split.
+  match goal with H : no_char "," s = true |- _ => rewrite (c_remove_none _ _ H) end.
+  match goal with H : String.eqb (py_strip s) s = true |- _ => apply String.eqb_eq in H; rewrite H end.
+  exact Hne.
+Qed.
+
+(* the value of a noise slot is kept by the reader *)
+Lemma c_noise_simple : forall v, noise_val v = true -> negb (String.eqb (py_strip (remove_char "," (unq v))) "") = true.
+Proof.
+  intros v H. unfold noise_val in H. apply orb_true_iff in H. destruct H as [H|H].
+  - c_split. destruct v as [|c r]; [discriminate|].
+    match goal with H : negb (prefixb dq (String c r)) = true |- _ => unfold dq in H; cbn [prefixb] in H; rewrite andb_true_r in H;
+      apply negb_true_iff in H; rewrite Ascii.eqb_sym in H end.
+    cbn [unq]. match goal with H : Ascii.eqb c DQ = false |- _ => rewrite H end. apply c_txt_simple; assumption.
+  - remember (substring 1 (String.length v - 2) v) as u eqn:Eu. clear Eu. c_split.
+    match goal with H : String.eqb v (q u) = true |- _ => apply String.eqb_eq in H; subst v end.
+    rewrite c_unq_q. apply c_txt_simple; assumption.
+Qed.
+
 Definition c_noise_ok (l : list slot) : bool :=
-  forallb (fun s => match s with SNoise k v => noise_key k && noise_val v | STag _ => true end) l.
+  forallb (fun s => match s with SNoise k v => noise_key k && noise_val v | _ => true end) l.
 
 Lemma c_layout_parts : forall f l, layout_ok f l = true ->
   nodup_tags l [] = true /\ nodups (entry_keys (items_of "" f l)) = true
@@ -200,34 +251,44 @@ Qed.
 
 (* ---------------------------------------------------------------- entries of a layout *)
 
+Lemma c_entries_one : forall it, entries [it] = item_entries it.
+Proof. intro it. unfold entries. cbn [flat_map]. apply app_nil_r. Qed.
+
 Lemma c_entries_cons : forall ws f s r,
   entries (items_of ws f (s :: r)) =
-  (match s with SNoise k v => [(k, PStr (unq v))] | STag t => tag_entries f t end ++ entries (items_of ws f r))%list.
+  (match s with SNoise k v => item_entries (IField ws k v) | STag t => tag_entries f t | SInert it => item_entries it end
+   ++ entries (items_of ws f r))%list.
 Proof.
-  intros ws f s r. rewrite items_of_cons, entries_app. destruct s as [k v|t]; [reflexivity|].
-  rewrite tag_item_entries. reflexivity.
+  intros ws f s r. rewrite items_of_cons, entries_app. destruct s as [k v|t|it].
+  - rewrite c_entries_one. reflexivity.
+  - rewrite tag_item_entries. reflexivity.
+  - rewrite c_entries_one. reflexivity.
 Qed.
 
-Lemma c_entries_all : forall (Q : string * UmlBlob.pv -> Prop) ws f l,
-  (forall k v, In (SNoise k v) l -> Q (k, PStr (unq v))) -> (forall t kv, In kv (tag_entries f t) -> Q kv) ->
-  forall kv, In kv (entries (items_of ws f l)) -> Q kv.
+Lemma c_field_in : forall ws k v kv, In kv (item_entries (IField ws k v)) -> fst kv = k.
 Proof.
-  intros Q ws f l. induction l as [|s r IH]; intros Hn Ht kv Hin; [destruct Hin|].
+  intros ws k v kv H. cbn [item_entries] in H. destruct (String.eqb (py_strip (remove_char "," (unq v))) ""); [destruct H|].
+  destruct H as [H|[]]. subst kv. reflexivity.
+Qed.
+
+Lemma c_inert_in : forall it kv, In kv (item_entries it) -> In (fst kv) (item_keys it).
+Proof. intros it kv H. rewrite <- item_entries_keys. apply in_map. exact H. Qed.
+
+(* a property of the KEYS of all entries of a layout *)
+Lemma c_entries_all : forall (Q : string -> Prop) ws f l,
+  (forall k v, In (SNoise k v) l -> Q k) -> (forall it k, In (SInert it) l -> In k (item_keys it) -> Q k) ->
+  (forall t kv, In kv (tag_entries f t) -> Q (fst kv)) ->
+  forall kv, In kv (entries (items_of ws f l)) -> Q (fst kv).
+Proof.
+  intros Q ws f l. induction l as [|s r IH]; intros Hn Hi Ht kv Hin; [destruct Hin|].
   rewrite c_entries_cons in Hin. apply in_app_or in Hin. destruct Hin as [Hin|Hin].
-  - destruct s as [k v|t].
-    + destruct Hin as [Hin|[]]. subst kv. apply Hn. left. reflexivity.
+  - destruct s as [k v|t|it].
+    + rewrite (c_field_in _ _ _ _ Hin). apply (Hn k v). left. reflexivity.
     + exact (Ht t kv Hin).
-  - apply IH; [|exact Ht|exact Hin]. intros k v Hk. apply Hn. right. exact Hk.
-Qed.
-
-Lemma c_items_simple : forall ws f l,
-  c_noise_ok l = true -> (forall t it, f t = Some it -> item_simple it = true) -> forallb item_simple (items_of ws f l) = true.
-Proof.
-  intros ws f l. induction l as [|s r IH]; intros Hn Hf; [reflexivity|].
-  rewrite items_of_cons, forallb_app. unfold c_noise_ok in Hn. cbn [forallb] in Hn. apply andb_true_iff in Hn. destruct Hn as [Hs Hr].
-  rewrite (IH Hr Hf), andb_true_r. destruct s as [k v|t].
-  - apply andb_true_iff in Hs. destruct Hs as [_ Hv]. cbn [forallb item_simple]. rewrite (c_noise_unq v Hv). reflexivity.
-  - destruct (f t) as [it|] eqn:E; [|reflexivity]. cbn [forallb]. rewrite (Hf t it E). reflexivity.
+    + apply (Hi it); [left; reflexivity|]. apply c_inert_in. exact Hin.
+  - apply IH; [| |exact Ht|exact Hin].
+    + intros k v Hk. apply (Hn k v). right. exact Hk.
+    + intros it k Hk. apply Hi. right. exact Hk.
 Qed.
 
 Lemma c_indexed_in : forall k ids n kv, In kv (indexed k ids n) -> exists m i, kv = (k ++ "_" ++ dec m, PStr i).
@@ -238,41 +299,38 @@ Qed.
 
 (* ---------------------------------------------------------------- the entries a class writes *)
 
+Definition c_has_doc (c : sclass) : bool :=
+  match doc_field (tabsn (sc_nl c) 1) (sc_doc c) with Some _ => true | None => false end.
+
 Definition c_tag_entries (c : sclass) (t : tag) : list (string * UmlBlob.pv) :=
   match t with
   | TStereo => indexed "stereotypes" (sc_stereos c) 0
   | TAbstract => if sc_abstract c then [("abstract", PStr "T")] else []
-  | TDoc => if String.eqb (sc_doc c) "" then [] else [("documentation_plain", PStr (sc_doc c))]
+  | TDoc => if c_has_doc c then [("documentation_plain", PStr (doc_value (sc_doc c)))] else []
   | _ => []
   end.
 
-Lemma c_tag_entries_eq : forall c t, tag_entries (class_item c) t = c_tag_entries c t.
+Lemma c_tag_entries_eq : forall c t, nl_ok (sc_nl c) = true -> doc_ok (tabsn (sc_nl c) 1) (sc_doc c) = true ->
+  tag_entries (class_item c) t = c_tag_entries c t.
 Proof.
-  intros c t. unfold tag_entries. destruct t; cbn [class_item c_tag_entries]; try reflexivity.
+  intros c t Hnl Hdoc. unfold tag_entries. destruct t; cbn [class_item c_tag_entries]; try reflexivity.
   - unfold flag_field. destruct (sc_abstract c); reflexivity.
-  - unfold text_field. destruct (String.eqb (sc_doc c) ""); [reflexivity|]. cbn [item_entries]. rewrite c_unq_q. reflexivity.
+  - unfold c_has_doc. destruct (doc_field (tabsn (sc_nl c) 1) (sc_doc c)) as [it|] eqn:E; [|reflexivity].
+    destruct (doc_entries _ _ _ _ Hnl Hdoc E) as [H _]. exact H.
   - destruct (sc_members c); reflexivity.
   - destruct (sc_stereos c); reflexivity.
 Qed.
 
-Lemma c_class_item_simple : forall c t it, class_item c t = Some it -> item_simple it = true.
-Proof.
-  intros c t it H. destruct t; cbn [class_item] in H; try discriminate H.
-  - unfold flag_field in H. destruct (sc_abstract c); [|discriminate H]. injection H as H. subst it. reflexivity.
-  - unfold text_field in H. destruct (String.eqb (sc_doc c) "") eqn:E; [discriminate H|]. injection H as H. subst it.
-    cbn [item_simple]. rewrite c_unq_q, E. reflexivity.
-  - destruct (sc_members c); [discriminate H|]. injection H as H. subst it. reflexivity.
-  - destruct (sc_stereos c); [discriminate H|]. injection H as H. subst it. reflexivity.
-Qed.
-
-Lemma c_class_entries_notchild : forall c ws l, c_noise_ok l = true ->
+Lemma c_class_entries_notchild : forall c ws l, nl_ok (sc_nl c) = true -> doc_ok (tabsn (sc_nl c) 1) (sc_doc c) = true ->
+  c_noise_ok l = true -> inerts_ok KClass l = true ->
   forall kv, In kv (entries (items_of ws (class_item c) l)) -> is_child_key (fst kv) = false.
 Proof.
-  intros c ws l Hn. apply c_entries_all.
-  - intros k v Hin. cbn [fst]. apply c_noise_notchild. apply (c_noise_in l k v Hn Hin).
-  - intros t kv Hin. rewrite c_tag_entries_eq in Hin. destruct t; cbn [c_tag_entries] in Hin; try (destruct Hin; fail).
+  intros c ws l Hnl Hdoc Hn Hi. apply (c_entries_all (fun k => is_child_key k = false)).
+  - intros k v Hin. apply c_noise_notchild. apply (c_noise_in l k v Hn Hin).
+  - intros it k Hin Hk. exact (c_inert_notchild l it k Hi Hin Hk).
+  - intros t kv Hin. rewrite (c_tag_entries_eq c t Hnl Hdoc) in Hin. destruct t; cbn [c_tag_entries] in Hin; try (destruct Hin; fail).
     + destruct (sc_abstract c); [|destruct Hin]. destruct Hin as [Hin|[]]. subst kv. reflexivity.
-    + destruct (String.eqb (sc_doc c) ""); [destruct Hin|]. destruct Hin as [Hin|[]]. subst kv. reflexivity.
+    + destruct (c_has_doc c); [|destruct Hin]. destruct Hin as [Hin|[]]. subst kv. reflexivity.
     + apply c_indexed_in in Hin. destruct Hin as [m [i Hin]]. subst kv. cbn [fst]. apply (c_stereos_notchild m).
 Qed.
 
@@ -297,7 +355,7 @@ Definition c_slot (S : sdiagram) (c : sclass) (f : cflags) (s : slot) : cflags :
   match s with
   | STag TStereo => fold_left c_apply (kinds_of S c) f
   | STag TAbstract => if sc_abstract c then c_set_pure f else f
-  | STag TDoc => if String.eqb (sc_doc c) "" then f else c_set_comment f (sc_doc c)
+  | STag TDoc => if c_has_doc c then c_set_comment f (doc_value (sc_doc c)) else f
   | _ => f
   end.
 
@@ -330,21 +388,28 @@ Lemma c_step_doc : forall g f s, stereo_step g f ("documentation_plain", PStr s)
 Proof. reflexivity. Qed.
 
 Lemma c_flags_entries : forall S g c ws, g_names S g -> forallb (fun i => ident i && known S i) (sc_stereos c) = true ->
-  forall l, c_noise_ok l = true ->
+  nl_ok (sc_nl c) = true -> doc_ok (tabsn (sc_nl c) 1) (sc_doc c) = true ->
+  forall l, c_noise_ok l = true -> inerts_ok KClass l = true ->
   forall f, foldM (stereo_step g) (entries (items_of ws (class_item c) l)) f = Some (fold_left (c_slot S c) l f).
 Proof.
-  intros S g c ws Hg Hs l. induction l as [|s r IH]; intros Hn f; [reflexivity|].
+  intros S g c ws Hg Hs Hnl Hdoc l. induction l as [|s r IH]; intros Hn Hi f; [reflexivity|].
+  pose proof Hi as Hi'. unfold inerts_ok in Hi'. cbn [forallb] in Hi'. apply andb_true_iff in Hi'. destruct Hi' as [_ Hi2].
   unfold c_noise_ok in Hn. cbn [forallb] in Hn. apply andb_true_iff in Hn. destruct Hn as [Hn1 Hn2].
   rewrite c_entries_cons, c_foldM_app. cbn [fold_left].
-  assert (E : foldM (stereo_step g) (match s with SNoise k v => [(k, PStr (unq v))] | STag t => tag_entries (class_item c) t end) f
+  assert (E : foldM (stereo_step g) (match s with SNoise k v => item_entries (IField ws k v) | STag t => tag_entries (class_item c) t
+                                                  | SInert it => item_entries it end) f
               = Some (c_slot S c f s)).
-  { destruct s as [k v|t].
-    - apply andb_true_iff in Hn1. destruct Hn1 as [Hk _]. cbn [foldM c_slot]. rewrite (c_noise_step g f k _ Hk). reflexivity.
-    - rewrite c_tag_entries_eq. destruct t; cbn [c_tag_entries c_slot]; try reflexivity.
+  { destruct s as [k v|t|it].
+    - apply andb_true_iff in Hn1. destruct Hn1 as [Hk _]. cbn [c_slot]. apply c_foldM_skip.
+      intros [k' v'] Hin f'. apply c_field_in in Hin. cbn [fst] in Hin. subst k'. apply (c_noise_step g f' k _ Hk).
+    - rewrite (c_tag_entries_eq c t Hnl Hdoc). destruct t; cbn [c_tag_entries c_slot]; try reflexivity.
       + destruct (sc_abstract c); reflexivity.
-      + destruct (String.eqb (sc_doc c) ""); reflexivity.
-      + unfold kinds_of. apply (c_step_stereos S g _ Hg Hs). }
-  rewrite E. cbn [bind]. apply IH. exact Hn2.
+      + destruct (c_has_doc c); reflexivity.
+      + unfold kinds_of. apply (c_step_stereos S g _ Hg Hs).
+    - cbn [c_slot]. apply c_foldM_skip.
+      intros [k' v'] Hin f'. apply c_inert_in in Hin. cbn [fst] in Hin. apply c_skip_step.
+      apply (c_inert_parts (SInert it :: r) it k' Hi (or_introl eq_refl) Hin). }
+  rewrite E. cbn [bind]. apply IH; [exact Hn2|exact Hi2].
 Qed.
 
 (* ---------------------------------------------------------------- (1) the flags after all slots *)
@@ -397,7 +462,7 @@ Proof.
   intros S c proj X Y H. induction l as [|s r IH]; intro f.
   - cbn [fold_left has_tag existsb andb]. rewrite !orb_false_r. reflexivity.
   - cbn [fold_left]. rewrite IH, H, !c_has_tag_cons.
-    destruct s as [k v|t]; [|destruct t]; cbn [tag_eqb orb andb]; rewrite ?orb_false_r; try reflexivity.
+    destruct s as [k v|t|it]; [|destruct t|]; cbn [tag_eqb orb andb]; rewrite ?orb_false_r; try reflexivity.
     + destruct (proj f), Y, (has_tag TStereo r), X, (has_tag TAbstract r); reflexivity.
     + destruct (proj f), Y, (has_tag TStereo r), X, (has_tag TAbstract r); reflexivity.
 Qed.
@@ -405,52 +470,52 @@ Qed.
 Lemma c_slot_pure : forall S c f s,
   cf_pure (c_slot S c f s) = cf_pure f || match s with STag TStereo => existsb (is_kind KIface) (kinds_of S c) | STag TAbstract => sc_abstract c | _ => false end.
 Proof.
-  intros S c f s. destruct s as [k v|t]; [|destruct t]; cbn [c_slot]; rewrite ?orb_false_r; try reflexivity.
+  intros S c f s. destruct s as [k v|t|it]; [|destruct t|]; cbn [c_slot]; rewrite ?orb_false_r; try reflexivity.
   - destruct (sc_abstract c); [cbn [c_set_pure cf_pure]; rewrite orb_true_r|rewrite orb_false_r]; reflexivity.
-  - destruct (String.eqb (sc_doc c) ""); reflexivity.
+  - destruct (c_has_doc c); reflexivity.
   - apply c_apply_pure.
 Qed.
 Lemma c_slot_autogen : forall S c f s,
   cf_autogen (c_slot S c f s) = cf_autogen f || match s with STag TStereo => existsb (is_kind KAutogen) (kinds_of S c) | STag TAbstract => false | _ => false end.
 Proof.
-  intros S c f s. destruct s as [k v|t]; [|destruct t]; cbn [c_slot]; rewrite ?orb_false_r; try reflexivity.
+  intros S c f s. destruct s as [k v|t|it]; [|destruct t|]; cbn [c_slot]; rewrite ?orb_false_r; try reflexivity.
   - destruct (sc_abstract c); reflexivity.
-  - destruct (String.eqb (sc_doc c) ""); reflexivity.
+  - destruct (c_has_doc c); reflexivity.
   - apply c_apply_autogen.
 Qed.
 Lemma c_slot_enum : forall S c f s,
   cf_enum (c_slot S c f s) = cf_enum f || match s with STag TStereo => existsb (is_kind KEnumeration) (kinds_of S c) | STag TAbstract => false | _ => false end.
 Proof.
-  intros S c f s. destruct s as [k v|t]; [|destruct t]; cbn [c_slot]; rewrite ?orb_false_r; try reflexivity.
+  intros S c f s. destruct s as [k v|t|it]; [|destruct t|]; cbn [c_slot]; rewrite ?orb_false_r; try reflexivity.
   - destruct (sc_abstract c); reflexivity.
-  - destruct (String.eqb (sc_doc c) ""); reflexivity.
+  - destruct (c_has_doc c); reflexivity.
   - apply c_apply_enum.
 Qed.
 Lemma c_slot_struct : forall S c f s,
   cf_struct (c_slot S c f s) = cf_struct f || match s with STag TStereo => existsb (is_kind (KStructure false)) (kinds_of S c) | STag TAbstract => false | _ => false end.
 Proof.
-  intros S c f s. destruct s as [k v|t]; [|destruct t]; cbn [c_slot]; rewrite ?orb_false_r; try reflexivity.
+  intros S c f s. destruct s as [k v|t|it]; [|destruct t|]; cbn [c_slot]; rewrite ?orb_false_r; try reflexivity.
   - destruct (sc_abstract c); reflexivity.
-  - destruct (String.eqb (sc_doc c) ""); reflexivity.
+  - destruct (c_has_doc c); reflexivity.
   - apply c_apply_struct.
 Qed.
 Lemma c_slot_packed : forall S c f s,
   cf_packed (c_slot S c f s) = cf_packed f || match s with STag TStereo => existsb c_is_packed (kinds_of S c) | STag TAbstract => false | _ => false end.
 Proof.
-  intros S c f s. destruct s as [k v|t]; [|destruct t]; cbn [c_slot]; rewrite ?orb_false_r; try reflexivity.
+  intros S c f s. destruct s as [k v|t|it]; [|destruct t|]; cbn [c_slot]; rewrite ?orb_false_r; try reflexivity.
   - destruct (sc_abstract c); reflexivity.
-  - destruct (String.eqb (sc_doc c) ""); reflexivity.
+  - destruct (c_has_doc c); reflexivity.
   - apply c_apply_packed.
 Qed.
 
 Lemma c_slots_comment : forall S c l f,
-  cf_comment (fold_left (c_slot S c) l f) = if has_tag TDoc l && negb (String.eqb (sc_doc c) "") then sc_doc c else cf_comment f.
+  cf_comment (fold_left (c_slot S c) l f) = if has_tag TDoc l && c_has_doc c then doc_value (sc_doc c) else cf_comment f.
 Proof.
   intros S c. induction l as [|s r IH]; intro f; [reflexivity|].
   cbn [fold_left]. rewrite IH, c_has_tag_cons.
-  destruct s as [k v|t]; [|destruct t]; cbn [c_slot tag_eqb orb]; try reflexivity.
+  destruct s as [k v|t|it]; [|destruct t|]; cbn [c_slot tag_eqb orb]; try reflexivity.
   - destruct (sc_abstract c); reflexivity.
-  - destruct (String.eqb (sc_doc c) ""); cbn [negb andb]; [rewrite andb_false_r; reflexivity|].
+  - destruct (c_has_doc c); cbn [andb]; [|rewrite !andb_false_r; reflexivity].
     destruct (has_tag TDoc r); reflexivity.
   - rewrite c_apply_comment. reflexivity.
 Qed.
@@ -458,9 +523,9 @@ Qed.
 Lemma c_slots_literals : forall S c l f, cf_literals (fold_left (c_slot S c) l f) = cf_literals f.
 Proof.
   intros S c. induction l as [|s r IH]; intro f; [reflexivity|].
-  cbn [fold_left]. rewrite IH. destruct s as [k v|t]; [|destruct t]; cbn [c_slot]; try reflexivity.
+  cbn [fold_left]. rewrite IH. destruct s as [k v|t|it]; [|destruct t|]; cbn [c_slot]; try reflexivity.
   - destruct (sc_abstract c); reflexivity.
-  - destruct (String.eqb (sc_doc c) ""); reflexivity.
+  - destruct (c_has_doc c); reflexivity.
   - apply c_apply_literals.
 Qed.
 
@@ -469,70 +534,90 @@ Qed.
 Lemma c_children_app : forall a b, children_of (a ++ b)%list = (children_of a ++ children_of b)%list.
 Proof. intros a b. unfold children_of. apply flat_map_app. Qed.
 
+(* an owned element of an inert property: the reader does not take it for a member *)
+Definition c_inert (n : wnode) : bool := kind_child_ok KClass (node_type n).
+
+Definition c_kidsf (c : sclass) (s : slot) : list wnode :=
+  match s with
+  | STag t => match class_item c t with Some it => kids_of it | None => [] end
+  | SInert it => kids_of it
+  | SNoise _ _ => []
+  end.
+
 Lemma c_item_kids : forall c t,
-  children_of (match class_item c t with Some it => [it] | None => [] end)
+  match class_item c t with Some it => kids_of it | None => [] end
   = match t with TChild => map tree_of_member (sc_members c) | _ => [] end.
 Proof.
   intros c t. destruct t; cbn [class_item]; try reflexivity.
   - unfold flag_field. destruct (sc_abstract c); reflexivity.
-  - unfold text_field. destruct (String.eqb (sc_doc c) ""); reflexivity.
-  - destruct (sc_members c) as [|m ms]; [reflexivity|]. unfold children_of. cbn [flat_map]. apply app_nil_r.
+  - destruct (sc_doc c) as [v|x]; cbn [doc_field]; [|reflexivity]. unfold text_field. destruct (String.eqb v ""); reflexivity.
+  - destruct (sc_members c) as [|m ms]; reflexivity.
   - destruct (sc_stereos c); reflexivity.
-Qed.
-
-Lemma c_kids_notag : forall c ws l, has_tag TChild l = false -> children_of (items_of ws (class_item c) l) = [].
-Proof.
-  intros c ws l. induction l as [|s r IH]; intro H; [reflexivity|].
-  rewrite c_has_tag_cons in H. apply orb_false_iff in H. destruct H as [H1 H2].
-  rewrite items_of_cons, c_children_app, (IH H2), app_nil_r.
-  destruct s as [k v|t]; [reflexivity|]. rewrite c_item_kids. destruct t; try reflexivity. discriminate H1.
 Qed.
 
 Lemma c_nodup_seen : forall l seen t, nodup_tags l seen = true -> existsb (tag_eqb t) seen = true -> has_tag t l = false.
 Proof.
   induction l as [|s r IH]; intros seen t H Hs; [reflexivity|].
-  rewrite c_has_tag_cons. destruct s as [k v|x]; cbn [nodup_tags] in H.
+  rewrite c_has_tag_cons. destruct s as [k v|x|it]; cbn [nodup_tags] in H.
   - cbn [orb]. exact (IH seen t H Hs).
   - c_split. destruct (tag_eqb x t) eqn:E.
     + apply tag_eqb_eq in E. subst x.
       match goal with H : negb _ = true |- _ => rewrite Hs in H; discriminate H end.
     + cbn [orb]. apply (IH (x :: seen) t); [assumption|]. cbn [existsb]. rewrite Hs. apply orb_true_r.
+  - cbn [orb]. exact (IH seen t H Hs).
 Qed.
 
-Lemma c_kids : forall c ws l seen, nodup_tags l seen = true ->
-  children_of (items_of ws (class_item c) l) = if has_tag TChild l then map tree_of_member (sc_members c) else [].
+(* the owned elements of a class body: inert ones, the members (in order), inert ones *)
+Lemma c_kids : forall c l seen, nodup_tags l seen = true -> inerts_ok KClass l = true ->
+  exists I1 I2, flat_map (c_kidsf c) l = (I1 ++ (if has_tag TChild l then map tree_of_member (sc_members c) else []) ++ I2)%list
+                /\ forallb c_inert I1 = true /\ forallb c_inert I2 = true.
 Proof.
-  intros c ws l. induction l as [|s r IH]; intros seen H; [reflexivity|].
-  rewrite items_of_cons, c_children_app, c_has_tag_cons. destruct s as [k v|t]; cbn [nodup_tags] in H.
-  - cbn [orb]. exact (IH seen H).
-  - c_split. rewrite c_item_kids.
-    assert (Hr : nodup_tags r (t :: seen) = true) by assumption.
-    destruct t; cbn [tag_eqb orb app]; try exact (IH _ Hr).
-    rewrite (c_kids_notag c ws r); [apply app_nil_r|].
-    apply (c_nodup_seen r (TChild :: seen) TChild Hr). reflexivity.
+  intros c l. induction l as [|s r IH]; intros seen H Hi; [exists [], []; repeat split; reflexivity|].
+  unfold inerts_ok in Hi. cbn [forallb] in Hi. apply andb_true_iff in Hi. destruct Hi as [Hs Hr].
+  cbn [flat_map]. rewrite c_has_tag_cons. destruct s as [k v|t|it]; cbn [nodup_tags] in H.
+  - destruct (IH seen H Hr) as [I1 [I2 [E [H1 H2]]]]. exists I1, I2. cbn [c_kidsf app orb]. repeat split; assumption.
+  - apply andb_true_iff in H. destruct H as [_ Hnd]. cbn [c_kidsf]. rewrite c_item_kids.
+    destruct (IH _ Hnd Hr) as [I1 [I2 [E [H1 H2]]]].
+    destruct (tag_eqb t TChild) eqn:Et.
+    + apply tag_eqb_eq in Et. subst t.
+      assert (Hno : has_tag TChild r = false) by (apply (c_nodup_seen r (TChild :: seen) TChild Hnd); reflexivity).
+      rewrite Hno in E. cbn [app] in E. exists [], (I1 ++ I2)%list. cbn [orb app]. rewrite E.
+      split; [reflexivity|]. split; [reflexivity|]. rewrite forallb_app, H1, H2. reflexivity.
+    + exists I1, I2. cbn [orb].
+      replace (match t with TChild => map tree_of_member (sc_members c) | _ => [] end) with (@nil wnode)
+        by (destruct t; try reflexivity; discriminate Et).
+      cbn [app]. repeat split; assumption.
+  - destruct (IH seen H Hr) as [I1 [I2 [E [H1 H2]]]]. exists (kids_of it ++ I1)%list, I2. cbn [c_kidsf orb]. rewrite E.
+    split; [apply app_assoc|]. split; [|exact H2]. rewrite forallb_app, H1, andb_true_r.
+    destruct it as [ws k v|ws k o sep cl ids|ws k o sep cl ns|x|x]; try reflexivity.
+    cbn [kids_of]. unfold inert_ok in Hs. apply andb_true_iff in Hs. destruct Hs as [_ Hs]. exact Hs.
 Qed.
 
 Lemma c_class_kids : forall S c, class_ok S c = true ->
-  children_of (items_of (tabs 1) (class_item c) (sc_layout c)) = map tree_of_member (sc_members c).
+  exists I1 I2, children_of (items_of (tabsn (sc_nl c) 1) (class_item c) (sc_layout c))
+                = (I1 ++ map tree_of_member (sc_members c) ++ I2)%list
+                /\ forallb c_inert I1 = true /\ forallb c_inert I2 = true.
 Proof.
   intros S c H. unfold class_ok in H. c_split.
   match goal with H : layout_ok _ _ = true |- _ => destruct (c_layout_parts _ _ H) as [Hd [_ [_ [_ Hp]]]] end.
-  rewrite (c_kids c (tabs 1) (sc_layout c) [] Hd).
-  destruct (sc_members c) as [|m ms] eqn:E; [destruct (has_tag TChild (sc_layout c)); reflexivity|].
-  rewrite (Hp TChild (IChildren (tabs 1) "Child" (list_open 2) (list_sep 2) (list_close 1) (map tree_of_member (m :: ms)))); [reflexivity|].
-  cbn [class_item]. rewrite E. reflexivity.
+  match goal with H : inerts_ok KClass _ = true |- _ => destruct (c_kids c (sc_layout c) [] Hd H) as [I1 [I2 [Ekids [HI1 HI2]]]] end.
+  exists I1, I2. rewrite children_of_layout. change (flat_map _ (sc_layout c)) with (flat_map (c_kidsf c) (sc_layout c)).
+  rewrite Ekids. split; [|split; assumption]. f_equal. f_equal.
+  destruct (sc_members c) as [|m ms] eqn:Em; [destruct (has_tag TChild (sc_layout c)); reflexivity|].
+  rewrite (Hp TChild (IChildren (tabsn (sc_nl c) 1) "Child" (list_open (sc_nl c) 2) (list_sep (sc_nl c) 2) (list_close (sc_nl c) 1) (map tree_of_member (m :: ms)))); [reflexivity|].
+  cbn [class_item]. rewrite Em. reflexivity.
 Qed.
 
 (* the dictionary of a member *)
 Definition c_mtype (m : smember) : string :=
-  match m with MOp _ => "Operation" | MAttr _ => "Attribute" | MLit _ _ _ => "EnumerationLiteral" end.
+  match m with MOp _ => "Operation" | MAttr _ => "Attribute" | MLit _ _ _ _ => "EnumerationLiteral" end.
 Definition c_mname (m : smember) : string :=
-  match m with MOp o => so_name o | MAttr a => sa_name a | MLit _ n _ => n end.
+  match m with MOp o => so_name o | MAttr a => sa_name a | MLit _ n _ _ => n end.
 
 Lemma c_member_dict : forall m, exists id its,
   node_pv (tree_of_member m) = PDict [("id", PStr id); ("name", PStr (c_mname m)); ("type", PStr (c_mtype m)); ("child_0", body_pv its)].
 Proof.
-  intro m. destruct m as [o|a|id nm noise]; unfold tree_of_member, tree_of_op, tree_of_attr; rewrite node_explicit; eexists; eexists; reflexivity.
+  intro m. destruct m as [o|a|id nm nl noise]; unfold tree_of_member, tree_of_op, tree_of_attr; rewrite node_explicit; eexists; eexists; reflexivity.
 Qed.
 
 Lemma c_member_truthy : forall m, truthy (node_pv (tree_of_member m)) = true.
@@ -544,9 +629,21 @@ Proof. intro m. destruct (c_member_dict m) as [id [its E]]. rewrite E. reflexivi
 Lemma c_member_name : forall m, sidx "name" (node_pv (tree_of_member m)) = Some (c_mname m).
 Proof. intro m. destruct (c_member_dict m) as [id [its E]]. rewrite E. reflexivity. Qed.
 
+(* the dictionary of an owned element of an inert property *)
+Lemma c_inert_dict : forall n, exists id nm its,
+  node_pv n = PDict [("id", PStr id); ("name", PStr nm); ("type", PStr (node_type n)); ("child_0", body_pv its)].
+Proof. intro n. destruct n as [id nm ty its tl]. rewrite node_explicit. eexists. eexists. eexists. reflexivity. Qed.
+
+Lemma c_inert_truthy : forall n, truthy (node_pv n) = true.
+Proof. intro n. destruct (c_inert_dict n) as [id [nm [its E]]]. rewrite E. reflexivity. Qed.
+Lemma c_inert_has_type : forall n, has "type" (node_pv n) = true.
+Proof. intro n. destruct (c_inert_dict n) as [id [nm [its E]]]. rewrite E. reflexivity. Qed.
+Lemma c_inert_type : forall n, sidx "type" (node_pv n) = Some (node_type n).
+Proof. intro n. destruct (c_inert_dict n) as [id [nm [its E]]]. rewrite E. reflexivity. Qed.
+
 (* ---------------------------------------------------------------- (1) the literals *)
 
-Definition c_lit (m : smember) : list string := match m with MLit _ n _ => [n] | _ => [] end.
+Definition c_lit (m : smember) : list string := match m with MLit _ n _ _ => [n] | _ => [] end.
 
 Lemma c_add_lits_nil : forall f, c_add_lits f [] = f.
 Proof. intro f. destruct f as [b1 b2 b3 b4 b5 cm ls]. unfold c_add_lits. cbn [cf_pure cf_autogen cf_enum cf_struct cf_packed cf_comment cf_literals]. rewrite app_nil_r. reflexivity. Qed.
@@ -560,7 +657,7 @@ Proof.
   rewrite c_child_stereo, c_child_abstract, c_child_doc, c_child_child.
   destruct (cf_enum f) eqn:En; [|rewrite c_add_lits_nil; reflexivity].
   rewrite c_member_has_type, c_member_type. cbn [bind].
-  destruct m as [o|a|id nm noise]; cbn [c_mtype c_lit].
+  destruct m as [o|a|id nm nl noise]; cbn [c_mtype c_lit].
   - change (String.eqb (py_strip (Uml.lower "Operation")) "enumerationliteral") with false. cbn iota. rewrite c_add_lits_nil. reflexivity.
   - change (String.eqb (py_strip (Uml.lower "Attribute")) "enumerationliteral") with false. cbn iota. rewrite c_add_lits_nil. reflexivity.
   - change (String.eqb (py_strip (Uml.lower "EnumerationLiteral")) "enumerationliteral") with true. cbn iota.
@@ -581,6 +678,39 @@ Proof.
     rewrite (c_step_child S g f n m) by assumption. cbn [bind]. rewrite IH by assumption.
     rewrite c_add_lits_add. change (cf_enum (c_add_lits f (if cf_enum f then c_lit m else []))) with (cf_enum f).
     destruct (cf_enum f); reflexivity.
+Qed.
+
+Lemma c_step_inert : forall g f k n, c_inert n = true -> stereo_step g f ("child_" ++ dec k, node_pv n) = Some f.
+Proof.
+  intros g f k n H. unfold stereo_step. cbn [fst snd].
+  rewrite c_child_stereo, c_child_abstract, c_child_doc, c_child_child.
+  destruct (cf_enum f); [|reflexivity].
+  rewrite c_inert_has_type, c_inert_type. cbn [bind].
+  unfold c_inert, kind_child_ok in H. c_split.
+  match goal with H : negb (String.eqb (py_strip _) _) = true |- _ => apply negb_true_iff in H; rewrite H end. reflexivity.
+Qed.
+
+Lemma c_flags_inerts : forall g ns, forallb c_inert ns = true ->
+  forall n f, foldM (stereo_step g) (numbered (map node_pv ns) n) f = Some f.
+Proof.
+  intros g ns. induction ns as [|x r IH]; intros H n f; [reflexivity|].
+  cbn [forallb] in H. c_split. cbn [map numbered foldM]. rewrite c_step_inert by assumption. cbn [bind]. apply IH. assumption.
+Qed.
+
+(* the flags after the whole body *)
+Lemma c_flags_body : forall S g c ws l ms I1 I2 f,
+  g_names S g -> forallb (fun i => ident i && known S i) (sc_stereos c) = true ->
+  nl_ok (sc_nl c) = true -> doc_ok (tabsn (sc_nl c) 1) (sc_doc c) = true ->
+  c_noise_ok l = true -> inerts_ok KClass l = true -> forallb c_inert I1 = true -> forallb c_inert I2 = true ->
+  forallb (member_ok S) ms = true ->
+  foldM (stereo_step g) (entries (items_of ws (class_item c) l) ++ numbered (map node_pv (I1 ++ map tree_of_member ms ++ I2)) 0)%list f
+  = Some (c_add_lits (fold_left (c_slot S c) l f) (if cf_enum (fold_left (c_slot S c) l f) then flat_map c_lit ms else [])).
+Proof.
+  intros S g c ws l ms I1 I2 f Hg Hst Hnl Hdoc Hn Hi H1 H2 Hm.
+  rewrite c_foldM_app, (c_flags_entries S g c ws Hg Hst Hnl Hdoc l Hn Hi). cbn [bind].
+  rewrite !map_app, !numbered_app, c_foldM_app.
+  rewrite (c_flags_inerts g I1 H1). cbn [bind]. rewrite c_foldM_app, (c_flags_children S g ms Hm). cbn [bind].
+  apply (c_flags_inerts g I2 H2).
 Qed.
 
 (* ---------------------------------------------------------------- (2), (3) the children of one type *)
@@ -615,16 +745,35 @@ Proof.
     intros m' Hm'. apply H. right. exact Hm'.
 Qed.
 
-Lemma c_typed_body : forall A g ty (p : (string -> option velem) -> UmlBlob.pv -> option A) (sel : smember -> list A) c ws l ms,
-  c_noise_ok l = true ->
+Lemma c_typed_inerts : forall A g ty (p : (string -> option velem) -> UmlBlob.pv -> option A) ns,
+  ty = "operation" \/ ty = "attribute" -> forallb c_inert ns = true ->
+  forall n acc, foldM (c_tstep g ty p) (numbered (map node_pv ns) n) acc = Some acc.
+Proof.
+  intros A g ty p ns Hty. induction ns as [|x r IH]; intros H n acc; [reflexivity|].
+  cbn [forallb] in H. apply andb_true_iff in H. destruct H as [Hx Hr]. cbn [map numbered foldM].
+  assert (E : c_tstep g ty p acc ("child_" ++ dec n, node_pv x) = Some acc).
+  { unfold c_tstep. cbn [fst snd]. rewrite c_child_is, c_inert_truthy, c_inert_type. cbn [bind].
+    unfold c_inert, kind_child_ok in Hx. c_split.
+    repeat match goal with H : negb _ = true |- _ => apply negb_true_iff in H end.
+    destruct Hty; subst ty; rewrite String.eqb_sym;
+      match goal with H : String.eqb (Uml.lower (node_type x)) _ = false |- _ => rewrite H end; reflexivity. }
+  rewrite E. cbn [bind]. apply IH. exact Hr.
+Qed.
+
+Lemma c_typed_body : forall A g ty (p : (string -> option velem) -> UmlBlob.pv -> option A) (sel : smember -> list A) c ws l ms I1 I2,
+  ty = "operation" \/ ty = "attribute" ->
+  nl_ok (sc_nl c) = true -> doc_ok (tabsn (sc_nl c) 1) (sc_doc c) = true ->
+  c_noise_ok l = true -> inerts_ok KClass l = true -> forallb c_inert I1 = true -> forallb c_inert I2 = true ->
   (forall m, In m ms ->
      if String.eqb ty (Uml.lower (c_mtype m)) then exists x, p g (node_pv (tree_of_member m)) = Some x /\ sel m = [x] else sel m = []) ->
-  foldM (c_tstep g ty p) (entries (items_of ws (class_item c) l) ++ numbered (map node_pv (map tree_of_member ms)) 0)%list []
+  foldM (c_tstep g ty p) (entries (items_of ws (class_item c) l) ++ numbered (map node_pv (I1 ++ map tree_of_member ms ++ I2)) 0)%list []
   = Some (flat_map sel ms).
 Proof.
-  intros A g ty p sel c ws l ms Hn H. rewrite c_foldM_app, c_foldM_skip.
-  - cbn [bind]. rewrite (c_typed_members A g ty p sel ms H). reflexivity.
-  - intros kv Hin acc. unfold c_tstep. rewrite (c_class_entries_notchild c ws l Hn kv Hin). reflexivity.
+  intros A g ty p sel c ws l ms I1 I2 Hty Hnl Hdoc Hn Hi H1 H2 H. rewrite c_foldM_app, c_foldM_skip.
+  - cbn [bind]. rewrite !map_app, !numbered_app, c_foldM_app.
+    rewrite (c_typed_inerts A g ty p I1 Hty H1). cbn [bind]. rewrite c_foldM_app, (c_typed_members A g ty p sel ms H). cbn [bind].
+    apply (c_typed_inerts A g ty p I2 Hty H2).
+  - intros kv Hin acc. unfold c_tstep. rewrite (c_class_entries_notchild c ws l Hnl Hdoc Hn Hi kv Hin). reflexivity.
 Qed.
 
 (* ---------------------------------------------------------------- the top dictionary *)
@@ -655,11 +804,11 @@ Proof.
   erewrite Hp; [reflexivity|]. cbn [class_item]. unfold flag_field. rewrite E. reflexivity.
 Qed.
 
-Lemma c_doc_present : (if has_tag TDoc l && negb (String.eqb (sc_doc c) "") then sc_doc c else "") = sc_doc c.
+Lemma c_doc_present : (if has_tag TDoc l && c_has_doc c then doc_value (sc_doc c) else "") = doc_value (sc_doc c).
 Proof.
-  destruct (String.eqb (sc_doc c) "") eqn:E.
-  - apply String.eqb_eq in E. rewrite E. destruct (has_tag TDoc l); reflexivity.
-  - erewrite Hp; [reflexivity|]. cbn [class_item]. unfold text_field. rewrite E. reflexivity.
+  unfold c_has_doc. destruct (doc_field (tabsn (sc_nl c) 1) (sc_doc c)) as [it|] eqn:E.
+  - erewrite Hp; [reflexivity|]. cbn [class_item]. exact E.
+  - rewrite andb_false_r. symmetry. exact (doc_absent _ _ E).
 Qed.
 End Present.
 
@@ -674,31 +823,35 @@ Proof.
   pose proof Hc as Hc'. unfold class_ok in Hc'. c_split.
   match goal with H : forallb (member_ok S) _ = true |- _ => rename H into Hmem end.
   match goal with H : forallb (fun i => ident i && known S i) _ = true |- _ => rename H into Hst end.
+  match goal with H : nl_ok _ = true |- _ => rename H into Hnl end.
+  match goal with H : doc_ok _ _ = true |- _ => rename H into Hdoc end.
+  match goal with H : inerts_ok _ _ = true |- _ => rename H into Hin end.
   match goal with H : layout_ok _ _ = true |- _ => destruct (c_layout_parts _ _ H) as [Hd [Hk [Hch [Hn Hp]]]] end.
   unfold parse_class. rewrite HP. cbn [bind].
   unfold tree_of_class. rewrite top_explicit.
-  rewrite body_explicit;
-    [|apply c_items_simple; [exact Hn|apply c_class_item_simple]|rewrite entry_keys_ws; exact Hk|rewrite entry_keys_ws; exact Hch].
-  rewrite (c_class_kids S c Hc).
+  rewrite body_explicit; [|rewrite entry_keys_ws; exact Hk|rewrite entry_keys_ws; exact Hch].
+  destruct (c_class_kids S c Hc) as [I1 [I2 [Ekids [HI1 HI2]]]]. rewrite Ekids.
   rewrite !c_typed_children_eq, !c_over_top.
   (* (2) operations *)
-  rewrite (c_typed_body _ g "operation" parse_operation (fun m => match m with MOp o => [rop_of S o] | _ => [] end) c (tabs 1) (sc_layout c) (sc_members c) Hn).
-  2:{ intros m Hm. rewrite forallb_forall in Hmem. specialize (Hmem m Hm). destruct m as [o|a|id nm noise]; cbn [c_mtype].
+  rewrite (c_typed_body _ g "operation" parse_operation (fun m => match m with MOp o => [rop_of S o] | _ => [] end) c
+             (tabsn (sc_nl c) 1) (sc_layout c) (sc_members c) I1 I2 (or_introl eq_refl) Hnl Hdoc Hn Hin HI1 HI2).
+  2:{ intros m Hm. rewrite forallb_forall in Hmem. specialize (Hmem m Hm). destruct m as [o|a|id nm nl noise]; cbn [c_mtype].
       - change (String.eqb "operation" (Uml.lower "Operation")) with true. cbn iota.
         exists (rop_of S o). split; [apply Gop; assumption|reflexivity].
       - reflexivity.
       - reflexivity. }
   (* (3) attributes *)
-  rewrite (c_typed_body _ g "attribute" parse_attribute (fun m => match m with MAttr a => [rattr_of S a] | _ => [] end) c (tabs 1) (sc_layout c) (sc_members c) Hn).
-  2:{ intros m Hm. rewrite forallb_forall in Hmem. specialize (Hmem m Hm). destruct m as [o|a|id nm noise]; cbn [c_mtype].
+  rewrite (c_typed_body _ g "attribute" parse_attribute (fun m => match m with MAttr a => [rattr_of S a] | _ => [] end) c
+             (tabsn (sc_nl c) 1) (sc_layout c) (sc_members c) I1 I2 (or_intror eq_refl) Hnl Hdoc Hn Hin HI1 HI2).
+  2:{ intros m Hm. rewrite forallb_forall in Hmem. specialize (Hmem m Hm). destruct m as [o|a|id nm nl noise]; cbn [c_mtype].
       - reflexivity.
       - change (String.eqb "attribute" (Uml.lower "Attribute")) with true. cbn iota.
         exists (rattr_of S a). split; [apply Gattr; assumption|reflexivity].
       - reflexivity. }
   (* (1) flags *)
   fold c_flags0.
-  rewrite c_foldM_app, (c_flags_entries S g c (tabs 1) Hg Hst _ Hn). cbn [bind].
-  rewrite (c_flags_children S g _ Hmem). cbn [bind].
+  rewrite (c_flags_body S g c (tabsn (sc_nl c) 1) (sc_layout c) (sc_members c) I1 I2 c_flags0 Hg Hst Hnl Hdoc Hn Hin HI1 HI2 Hmem).
+  cbn [bind].
   set (F := fold_left (c_slot S c) (sc_layout c) c_flags0).
   unfold c_add_lits. cbn [cf_pure cf_autogen cf_enum cf_struct cf_packed cf_comment cf_literals].
   unfold F.
